@@ -61,6 +61,7 @@ type C05Case struct {
 }
 
 type c05Fleet struct {
+	lastAppTxn [8]int64 // per instance: id of its application's most recent write transaction
 	c      C05Case
 	b      *fault.Bucket
 	nodes  []*Node
@@ -298,6 +299,7 @@ func (f *c05Fleet) appCommitHold(i int, changes []SChange, hold func()) error {
 		if hold != nil {
 			defer hold()
 		}
+		f.lastAppTxn[i] = int64(txn.ID())
 		for _, ch := range changes {
 			dbiName := fleetDBIs[ch.DBI%len(fleetDBIs)]
 			key := fleetKeys[ch.Key%len(fleetKeys)]
